@@ -301,7 +301,7 @@ VS3 == <<"v1", "v2", "v3">>
 VS2 == <<"v1", "v2">>
 SVq == {<<1, 1, 2>>, <<1, 2, 2>>, <<1, 2, 3>>}
 SVt == SVq \cup {<<1, 1, 1>>, <<2, 1, 1>>, <<3, 3, 1>>, <<2, 3, 4>>, <<1, 1, 3>>}
-SV2 == {<<1, 1>>, <<1, 2>>}
+SV2 == {<<1, 2>>}
 \* chain units (min stake of the mock spec is 1000 ... see harness/t/conflict)
 SVsim == {<<1000, 1000, 1000>>, <<1000, 1000, 2000>>, <<1000, 1001, 2000>>, <<1000, 2000, 3000>>,
           <<3000, 1000, 1000>>, <<1500, 1000, 2501>>, <<1001, 1001, 1001>>}
